@@ -292,6 +292,13 @@ def run(ctx):
         for ff in okff:
             jobs.append({"id": len(jobs) + 1, "klass": f"strand {kind} {s_}", "args": [f"--ff={ff}"], "fs0": "absent", "fault": None, "kind": "success",
                          "input": "TEXT:" + gen.pdb_text([gen.nucleic(s_, kind), gen.water((20, 14, 4), resseq=101)])})
+    # complete structures written under the alternative atom spellings the topology declares
+    for style in (0, 1):
+        for ff in ffs:
+            for opts in ([], ["--nodebump", "--noopt"]):
+                jobs.append({"id": len(jobs) + 1, "klass": f"alternative terminal-oxygen spelling {style}", "args": [f"--ff={ff}"] + opts, "fs0": "absent",
+                             "fault": None, "kind": "success",
+                             "input": "TEXT:" + gen.pdb_text([gen.respell(gen.peptide(["ALA", "SER", "LYS", "GLY", "ASP"]), style, only=("O", "OXT"))])})
     for klass in CLASSES:
         jobs.append({"id": len(jobs) + 1, "klass": klass, "args": ["--ff=AMBER"] + CLASSES[klass], "fs0": "old",
                      "fault": None, "kind": "success"})
